@@ -10,6 +10,7 @@ import (
 	"bytes"
 	"crypto/aes"
 	"crypto/cipher"
+	"encoding/binary"
 	"encoding/json"
 	"errors"
 	"fmt"
@@ -157,20 +158,36 @@ func c05Read(fs filesystem.Filespace, path, rp string) c05Obs {
 	return c05ReadStream(fs, path)
 }
 
-// write through the encrypted filespace; chunks == nil means WriteFile(data)
+// write through the encrypted filespace; chunks == nil means WriteFile(data).
+// The caller behaves like io.Copy: every chunk is handed over in ONE reused buffer with spare
+// capacity that is overwritten as soon as Write returns (io.Writer: "must not retain p"), and the
+// slice given to WriteFile is scribbled over once WriteFile has returned. data/chunks themselves are
+// never touched, so they stay the reference for the oracles.
 func c05Write(fs filesystem.Filespace, path string, data []byte, chunks [][]byte, stream bool) string {
 	var err error
 	k := c05Guard(func() {
 		if !stream {
-			err = fs.WriteFile(path, data, 0o644)
+			own := append(make([]byte, 0, len(data)+64), data...)
+			err = fs.WriteFile(path, own, 0o644)
+			c05Scribble(own[:cap(own)])
 			return
 		}
 		var w filesystem.Writer
 		if w, err = fs.Writer(path); err != nil {
 			return
 		}
+		max := 0
 		for _, c := range chunks {
-			if _, err = w.Write(c); err != nil {
+			if len(c) > max {
+				max = len(c)
+			}
+		}
+		buf := make([]byte, max+64)
+		for _, c := range chunks {
+			n := copy(buf, c)
+			_, err = w.Write(buf[:n])
+			c05Scribble(buf)
+			if err != nil {
 				return
 			}
 		}
@@ -183,6 +200,12 @@ func c05Write(fs filesystem.Filespace, path string, data []byte, chunks [][]byte
 		return "err"
 	}
 	return "ok"
+}
+
+func c05Scribble(b []byte) {
+	for i := range b {
+		b[i] = 0xA5 ^ byte(i)
+	}
 }
 
 // independent AES-256-GCM under SHA3-256(km)
@@ -272,12 +295,12 @@ func c05Leaks(pt, stored []byte) bool {
 	if bytes.Contains(stored, pt) {
 		return true
 	}
-	seen := make(map[string]bool, len(stored))
+	seen := make(map[uint64]struct{}, len(stored))
 	for i := 0; i+8 <= len(stored); i++ {
-		seen[string(stored[i:i+8])] = true
+		seen[binary.LittleEndian.Uint64(stored[i:])] = struct{}{}
 	}
 	for i := 0; i+8 <= len(pt); i++ {
-		if seen[string(pt[i:i+8])] {
+		if _, ok := seen[binary.LittleEndian.Uint64(pt[i:])]; ok {
 			return true
 		}
 	}
@@ -290,6 +313,7 @@ type c05Run struct {
 	tier    string
 	hostid  []byte
 	ciphers []c05Cipher
+	nonces  map[string]string // every nonce of a genuine stored value seen in this run -> where
 }
 
 func (r *c05Run) encfs(base filesystem.Filespace, s c05Settings, c c05Cipher) filesystem.Filespace {
@@ -324,13 +348,16 @@ func (r *c05Run) parse(c c05Cipher, s c05Settings, pt, stored []byte, desc map[s
 		r.o.Fail("primitive", "crypto/cipher GCM does not satisfy open(seal(p)) = p / len = len p + 16", "primitive", desc)
 		return c05Entry{}, false
 	}
+	r.noteNonce(nonce, fmt.Sprintf("%s write of %d bytes (%v)", c.Name, len(pt), desc["op"]), desc)
 	return c05Entry{km: km, nonce: append([]byte{}, nonce...), pt: append([]byte{}, pt...), ct: append([]byte{}, ct...)}, true
 }
 
 func (r *c05Run) addRead(c c05Cipher, s c05Settings, tbl []c05Entry, stored []byte, rp string, ob c05Obs, what string, emit bool) map[string]interface{} {
-	desc := map[string]interface{}{"op": "read", "what": what, "cipher": c.Name, "settings": s.desc(), "stored": byteList(stored), "rp": rp, "obs": ob.Kind}
+	desc := map[string]interface{}{"op": "read", "what": what, "cipher": c.Name, "settings": s.desc(), "rp": rp, "obs": ob.Kind}
 	if len(stored) > 256 {
 		desc["stored"] = fmt.Sprintf("(%d bytes, regenerate with the seed)", len(stored))
+	} else {
+		desc["stored"] = byteList(stored)
 	}
 	key := fmt.Sprintf("r:%s:%s:%x:%x:%s", c.Name, rp, s.keymat(), sha3.Sum256(stored), what)
 	nontrivial := len(stored) >= c.Hdr+28 || ob.Kind != "err"
@@ -371,7 +398,9 @@ func runC05(o *Out, rng *RNG, tier string, replay string) {
 	o.Rule = "real EncryptFS over memfs and diskfs, ciphers aesgcm256cfs.NewCipher() and extcfs.NewDefaultCipher(): (1) plaintexts of length 0,1,15,16,17,4096 " +
 		"(+1 MiB thorough) x 6 settings x 2 ciphers x 2 bases x {WriteFile, Writer with random chunking} x {ReadFile, Reader}; (2) every truncation length 0..len, " +
 		"a bit flip at every byte position (all 8 bits in thorough), extensions, splices and random garbage of a 40-byte-plaintext stored value, both ciphers, both read paths, both bases; " +
-		"(3) DecryptReader on a counting reader with injected read/close faults; (4) all ordered pairs of settings (wrong key); (5) random name-space histories on twin bases. " +
+		"(3) DecryptReader on a counting reader with injected read/close faults; (4) all ordered pairs of settings (wrong key) and of 8 groups of look-alike settings; " +
+		"(5) random name-space histories on twin bases + every operation x every argument once on a fixed tree; (6) sequences: overlapping stream sessions, overwrites, odd read buffers, child views, refused paths; " +
+		"(7) no nonce twice in the run nor across two child processes; callers reuse every buffer they pass in. " +
 		"Non-trivial: the read answered with data, or the stored bytes are at least header+28 bytes long; distinct by (cipher, read path, key material, stored bytes)."
 	r := &c05Run{o: o, rng: rng, tier: tier, hostid: []byte(idutil.HostID())}
 	r.ciphers = []c05Cipher{
@@ -379,6 +408,12 @@ func runC05(o *Out, rng *RNG, tier string, replay string) {
 		{Name: "extcfs", Coq: "Tagged", Hdr: 4, C: extcfs.NewDefaultCipher()},
 	}
 	o.Extra["hostid_len"] = len(r.hostid)
+	if os.Getenv("C05_CHILD") == "1" { // see crossProcessFresh
+		for _, ln := range r.childWrites() {
+			fmt.Println(ln)
+		}
+		os.Exit(0)
+	}
 	if replay != "" {
 		if r.replay(replay) {
 			return
@@ -393,29 +428,42 @@ func runC05(o *Out, rng *RNG, tier string, replay string) {
 		{Secret: c05Rand(rng, 32), Salt: c05Rand(rng, 16), HostOnly: true},
 	}
 	r.roundtrips(settings)
-	r.tamper(settings[0])
-	r.wrongKey(settings)
+	r.tamper(settings[0], 40, true)
+	r.tamper(settings[5], 0, false)
+	r.tamper(settings[2], 1, false)
+	r.wrongKey(settings, func(i, j int) bool { return true })
+	for _, group := range r.lookalikeSettings() {
+		// every member against every other one; only the pairs with the group's first member go through Coq
+		r.wrongKey(group, func(i, j int) bool { return (i == 0 || j == 0) && len(group[i].keymat())+len(group[j].keymat()) < 200 })
+		r.o.Stat("lookalike_groups")
+	}
 	r.namespace(settings[5])
+	r.nsSweep(settings[0])
+	r.sequences(settings[5], settings[0])
+	r.crossProcessFresh()
 	r.settingsIsolationProbe()
 }
 
 // ---------------------------------------------------------------- (1) round trips
 
 func (r *c05Run) roundtrips(settings []c05Settings) {
-	lengths := []int{0, 1, 15, 16, 17, 4096}
+	// "including empty and large": 70 000 (> 64 KiB, > io.Copy's 32 KiB buffer) and 1 MiB in every
+	// tier (first settings only in quick), 100 000 in thorough
+	lengths := []int{0, 1, 15, 16, 17, 4096, 70000, 1 << 20}
 	if r.tier == "thorough" {
-		lengths = append(lengths, 100000, 1<<20)
+		lengths = append(lengths, 100000)
 	}
 	bigInCoq := 0
 	for _, kind := range []string{"memfs", "diskfs"} {
 		base := c05NewBase(kind)
 		must(base.FS.MkdirAll("d", 0o755))
 		fileNo := 0
+		var written [][]byte
 		for ci, c := range r.ciphers {
 			for si, s := range settings {
 				efs := r.encfs(base.FS, s, c)
 				for _, n := range lengths {
-					if n > 4096 && si > 1 {
+					if n > 4096 && (si > 1 || (si == 1 && r.tier != "thorough")) {
 						continue
 					}
 					for _, stream := range []bool{false, true} {
@@ -427,7 +475,10 @@ func (r *c05Run) roundtrips(settings []c05Settings) {
 						pt := c05Rand(r.rng, n)
 						var chunks [][]byte
 						wp := "WriteFile"
-						wcoq := "WriteFile " + coqBytes(pt)
+						wcoq := ""
+						if n <= 4096 {
+							wcoq = "WriteFile " + coqBytes(pt)
+						}
 						if stream {
 							wp = "Writer"
 							rest := pt
@@ -442,11 +493,13 @@ func (r *c05Run) roundtrips(settings []c05Settings) {
 									chunks = append(chunks, []byte{})
 								}
 							}
-							items := make([]string, len(chunks))
-							for i, ch := range chunks {
-								items[i] = coqBytes(ch)
+							if n <= 4096 {
+								items := make([]string, len(chunks))
+								for i, ch := range chunks {
+									items[i] = coqBytes(ch)
+								}
+								wcoq = "WriteStream " + coqList(items)
 							}
-							wcoq = "WriteStream " + coqList(items)
 						}
 						desc := map[string]interface{}{"op": "roundtrip", "base": kind, "cipher": c.Name, "settings": s.desc(), "len": n, "write": wp, "nchunks": len(chunks)}
 						if n <= 64 {
@@ -463,6 +516,9 @@ func (r *c05Run) roundtrips(settings []c05Settings) {
 						ent, ok := r.parse(c, s, pt, stored, desc)
 						if !ok {
 							continue
+						}
+						if n <= 4096 {
+							written = append(written, pt)
 						}
 						tbl := []c05Entry{ent}
 						// only a few of the big ones go through Coq
@@ -523,6 +579,7 @@ func (r *c05Run) roundtrips(settings []c05Settings) {
 				}
 			}
 		}
+		r.baseScan(base, written, map[string]interface{}{"op": "base-scan", "base": kind, "cipher": "both"})
 		base.Close()
 	}
 }
@@ -530,15 +587,25 @@ func (r *c05Run) roundtrips(settings []c05Settings) {
 // ---------------------------------------------------------------- (2)+(3) tampering
 
 type c05Variant struct {
-	what string
-	data []byte
-	ok   bool // expected to be answered with the original data
+	what   string
+	data   []byte
+	ok     bool // expected to be answered with the original data
+	l2only bool // judged by the oracles only (not sent through Coq): keeps the quick tier cheap
 }
 
-func (r *c05Run) tamper(s c05Settings) {
+// tamper: every truncation length and EVERY single-bit flip, the complement and the zeroing of every
+// byte of a genuine stored value of a ptLen-byte plaintext. full: plus extensions, splices, garbage,
+// and the variants go through Coq (in the quick tier one randomly chosen bit per byte does; the other
+// seven are decided by the oracles alone). The sweeps for the empty and the 1-byte plaintext
+// (full = false) are oracle-only.
+func (r *c05Run) tamper(s c05Settings, ptLen int, full bool) {
 	for _, c := range r.ciphers {
-		pt := c05Rand(r.rng, 40)
-		pt2 := c05Rand(r.rng, 40)
+		pt := c05Rand(r.rng, ptLen)
+		pt2 := c05Rand(r.rng, ptLen)
+		cut := 7
+		if cut > ptLen {
+			cut = ptLen
+		}
 		km := s.keymat()
 		// two genuine stored values under the same key
 		mem := c05NewBase("memfs")
@@ -547,7 +614,7 @@ func (r *c05Run) tamper(s c05Settings) {
 		var tbl []c05Entry
 		for i, p := range [][]byte{pt, pt2} {
 			name := fmt.Sprintf("orig%d", i)
-			if k := c05Write(efs, name, p, [][]byte{p[:7], p[7:]}, i == 1); k != "ok" {
+			if k := c05Write(efs, name, p, [][]byte{p[:cut], p[cut:]}, i == 1); k != "ok" {
 				r.o.Fail("roundtrip", "write: "+k, "write-"+k, map[string]interface{}{"op": "tamper-setup", "cipher": c.Name})
 				return
 			}
@@ -567,25 +634,36 @@ func (r *c05Run) tamper(s c05Settings) {
 		mem.Close()
 		var vs []c05Variant
 		for m := 0; m <= len(stored); m++ {
-			vs = append(vs, c05Variant{what: fmt.Sprintf("truncate to %d of %d", m, len(stored)), data: append([]byte{}, stored[:m]...), ok: m == len(stored)})
+			vs = append(vs, c05Variant{what: fmt.Sprintf("truncate to %d of %d", m, len(stored)), data: append([]byte{}, stored[:m]...), ok: m == len(stored), l2only: !full})
 		}
 		for i := 0; i < len(stored); i++ {
-			bits := []int{r.rng.Intn(8)}
-			if r.tier == "thorough" {
-				bits = []int{0, 1, 2, 3, 4, 5, 6, 7}
-			}
-			for _, b := range bits {
+			chosen := r.rng.Intn(8)
+			for b := 0; b < 8; b++ {
 				d := append([]byte{}, stored...)
 				d[i] ^= 1 << uint(b)
-				vs = append(vs, c05Variant{what: fmt.Sprintf("flip bit %d of byte %d", b, i), data: d})
+				vs = append(vs, c05Variant{what: fmt.Sprintf("flip bit %d of byte %d", b, i), data: d, l2only: !full || (r.tier != "thorough" && b != chosen)})
+			}
+			d := append([]byte{}, stored...)
+			d[i] ^= 0xff
+			vs = append(vs, c05Variant{what: fmt.Sprintf("complement byte %d", i), data: d, l2only: true})
+			if stored[i] != 0 {
+				d = append([]byte{}, stored...)
+				d[i] = 0
+				vs = append(vs, c05Variant{what: fmt.Sprintf("zero byte %d", i), data: d, l2only: true})
 			}
 		}
-		for k := 1; k <= 3; k++ {
+		// the same value stored through the stream path (same format): spot truncations of it too
+		for m := 0; m < len(storedB); m += 5 {
+			vs = append(vs, c05Variant{what: fmt.Sprintf("stream-written value truncated to %d of %d", m, len(storedB)), data: append([]byte{}, storedB[:m]...), l2only: true})
+		}
+		for k := 1; k <= 3 && full; k++ {
 			vs = append(vs, c05Variant{what: fmt.Sprintf("extend by %d bytes", k), data: append(append([]byte{}, stored...), c05Rand(r.rng, k)...)})
 		}
 		h := c.Hdr
 		splice := func(what string, parts ...[]byte) {
-			vs = append(vs, c05Variant{what: what, data: bytes.Join(parts, nil)})
+			if full {
+				vs = append(vs, c05Variant{what: what, data: bytes.Join(parts, nil)})
+			}
 		}
 		splice("nonce of another message", stored[:h], storedB[h:h+12], stored[h+12:])
 		splice("sealed part of another message", stored[:h+12], storedB[h+12:])
@@ -596,6 +674,10 @@ func (r *c05Run) tamper(s c05Settings) {
 		if h == 4 {
 			splice("tag 1 (unknown cipher)", []byte{1, 0, 0, 0}, stored[4:])
 			splice("tag big-endian 0x00000100", []byte{0, 0, 1, 0}, stored[4:])
+			splice("tag 0x80000000", []byte{0, 0, 0, 0x80}, stored[4:])
+			splice("tag 0x01000000", []byte{0, 0, 0, 1}, stored[4:])
+			splice("tag 0x00000100", []byte{0, 1, 0, 0}, stored[4:])
+			splice("tag 0xffffffff", []byte{0xff, 0xff, 0xff, 0xff}, stored[4:])
 			splice("tag only", []byte{0, 0, 0, 0})
 			splice("tag + 11 bytes", []byte{0, 0, 0, 0}, stored[4:15])
 			splice("raw-cipher value without tag", stored[4:])
@@ -606,6 +688,9 @@ func (r *c05Run) tamper(s c05Settings) {
 		if r.tier == "thorough" {
 			nGarbage = 1500
 		}
+		if !full {
+			nGarbage = 0
+		}
 		for i := 0; i < nGarbage; i++ {
 			n := r.rng.Intn(90)
 			d := c05Rand(r.rng, n)
@@ -614,7 +699,7 @@ func (r *c05Run) tamper(s c05Settings) {
 			}
 			vs = append(vs, c05Variant{what: fmt.Sprintf("random %d bytes", n), data: d})
 		}
-		r.o.Extra["tamper_variants_"+c.Name] = len(vs)
+		r.o.Extra[fmt.Sprintf("tamper_variants_%s_len%d", c.Name, ptLen)] = len(vs)
 
 		for _, kind := range []string{"memfs", "diskfs"} {
 			base := c05NewBase(kind)
@@ -624,11 +709,14 @@ func (r *c05Run) tamper(s c05Settings) {
 				if dead {
 					break
 				}
+				if kind == "diskfs" && v.l2only && vi%4 != 0 {
+					continue // the oracle-only variants: all of them on memfs, every fourth on disk
+				}
 				path := "t.bin"
 				must(base.FS.WriteFile(path, v.data, 0o644))
 				for _, rp := range []string{"RFile", "RStream"} {
 					ob := c05Read(efs, path, rp)
-					desc := r.addRead(c, s, tbl, v.data, rp, ob, v.what, kind == "memfs" || vi%4 == 0)
+					desc := r.addRead(c, s, tbl, v.data, rp, ob, v.what, !v.l2only && (kind == "memfs" || vi%4 == 0))
 					desc["base"] = kind
 					r.o.Stat("tamper_reads")
 					if v.ok {
@@ -650,7 +738,7 @@ func (r *c05Run) tamper(s c05Settings) {
 		// cipher level: DecryptReader on a counting reader, with and without injected faults
 		for vi, v := range vs {
 			combos := [][3]bool{{false, false, false}}
-			if vi%5 == 0 || v.ok {
+			if (vi%5 == 0 && !v.l2only) || v.ok {
 				combos = [][3]bool{{false, false, false}, {true, false, false}, {false, true, false}, {true, true, false}, {false, false, true}, {true, false, true}}
 			}
 			for _, fc := range combos {
@@ -679,8 +767,12 @@ func (r *c05Run) tamper(s c05Settings) {
 				desc := map[string]interface{}{"op": "stream", "what": v.what, "cipher": c.Name, "settings": s.desc(), "stored": byteList(v.data),
 					"read_fault": fc[0], "close_fault": fc[1], "one_byte_reads": fc[2], "obs": ob.Kind, "closes": cr.closes}
 				key := fmt.Sprintf("s:%s:%x:%v:%v:%v", c.Name, sha3.Sum256(v.data), fc[0], fc[1], fc[2])
-				r.o.AddCase(fmt.Sprintf("CStream %s %s %s %s %s %s %s %s", c.Coq, coqBytes(km), c05Table(tbl), coqBytes(v.data), coqBool(fc[0]), coqBool(fc[1]), ob.coq(), coqNat(cr.closes)),
-					desc, key, len(v.data) >= c.Hdr+28 || ob.Kind != "err")
+				if v.l2only {
+					r.o.CountEval(key, len(v.data) >= c.Hdr+28 || ob.Kind != "err")
+				} else {
+					r.o.AddCase(fmt.Sprintf("CStream %s %s %s %s %s %s %s %s", c.Coq, coqBytes(km), c05Table(tbl), coqBytes(v.data), coqBool(fc[0]), coqBool(fc[1]), ob.coq(), coqNat(cr.closes)),
+						desc, key, len(v.data) >= c.Hdr+28 || ob.Kind != "err")
+				}
 				r.o.Stat("stream_" + ob.Kind)
 				if fc[0] || fc[1] {
 					r.o.Stat("stream_faulted")
@@ -708,7 +800,9 @@ func (r *c05Run) tamper(s c05Settings) {
 
 // ---------------------------------------------------------------- (4) wrong key
 
-func (r *c05Run) wrongKey(settings []c05Settings) {
+// wrongKey: all ordered pairs of the given settings. emit(i, j) says whether the pair also goes
+// through Coq (the oracles judge every pair).
+func (r *c05Run) wrongKey(settings []c05Settings, emit func(i, j int) bool) {
 	for _, c := range r.ciphers {
 		for i, s1 := range settings {
 			base := c05NewBase("memfs")
@@ -727,12 +821,21 @@ func (r *c05Run) wrongKey(settings []c05Settings) {
 			}
 			for j, s2 := range settings {
 				if i == j {
+					// a second filespace built from the same settings reads it
+					for _, rp := range []string{"RFile", "RStream"} {
+						ob := c05Read(r.encfs(base.FS, c05Settings{Secret: append([]byte{}, s1.Secret...), Salt: append([]byte{}, s1.Salt...), HostOnly: s1.HostOnly}, c), "k.bin", rp)
+						r.o.CountEval(fmt.Sprintf("own:%s:%x:%s", c.Name, s1.keymat(), rp), true)
+						if ob.Kind != "ok" || !bytes.Equal(ob.Data, pt) {
+							r.o.Fail("roundtrip", fmt.Sprintf("a second filespace with the same secret, salt and host binding answered %s (%d bytes) through %s", ob.Kind, len(ob.Data), rp), "roundtrip",
+								map[string]interface{}{"op": "second-instance", "cipher": c.Name, "settings": s1.desc()})
+						}
+					}
 					continue
 				}
 				e2 := r.encfs(base.FS, s2, c)
 				for _, rp := range []string{"RFile", "RStream"} {
 					ob := c05Read(e2, "k.bin", rp)
-					desc := r.addRead(c, s2, []c05Entry{ent}, stored, rp, ob, fmt.Sprintf("written under settings %d, read under settings %d", i, j), true)
+					desc := r.addRead(c, s2, []c05Entry{ent}, stored, rp, ob, fmt.Sprintf("written under settings %d, read under settings %d", i, j), emit(i, j))
 					desc["written_under"] = s1.desc()
 					r.o.Stat("wrongkey_reads")
 					sameKM := bytes.Equal(s1.keymat(), s2.keymat())
@@ -866,6 +969,12 @@ func c05NsOp(fs filesystem.Filespace, op int, a, b string) string {
 			res = c05Err(fs.Remove(a))
 		case 10:
 			res = c05Err(fs.RemoveAll(a))
+		case 11:
+			sub, err := fs.Filespace(a)
+			res = c05Err(err)
+			if err == nil { // the child view shows what the twin's child view shows
+				res += " " + c05Infos(sub.ReadDir("")) + " " + fmt.Sprint(sub.IsFile("a"), sub.IsDir("e"))
+			}
 		}
 	})
 	if k != "done" {
@@ -874,14 +983,16 @@ func c05NsOp(fs filesystem.Filespace, op int, a, b string) string {
 	return res
 }
 
-var c05NsNames = []string{"IsExist", "IsFile", "IsDir", "ReadDir", "Lstat", "MkdirAll", "Copy", "CopyFile", "CopyDirectory", "Remove", "RemoveAll"}
+var c05NsPool = []string{"a", "b", "d", "d/a", "d/e", "d/e/b", "x", "x/y", "nope", "d/", "./a", "", "../z"}
+
+var c05NsNames = []string{"IsExist", "IsFile", "IsDir", "ReadDir", "Lstat", "MkdirAll", "Copy", "CopyFile", "CopyDirectory", "Remove", "RemoveAll", "Filespace"}
 
 func (r *c05Run) namespace(s c05Settings) {
 	nHist := 30
 	if r.tier == "thorough" {
 		nHist = 600
 	}
-	pool := []string{"a", "b", "d", "d/a", "d/e", "d/e/b", "x", "x/y", "nope", "d/", "./a", "", "../z"}
+	pool := c05NsPool
 	for hi := 0; hi < nHist; hi++ {
 		kind := []string{"memfs", "diskfs"}[hi%2]
 		c := r.ciphers[(hi/2)%2]
